@@ -64,7 +64,7 @@ func runC19(c *Ctx) {
 	c.E1Rules()
 	R := c.R
 	e1Decided := c.c19ByInterpretation()
-	R.Rules["E7.path"] = "every path handed to a file-creating call in the attachment server is built only from constants, the terminal's BCD phone number, and announced names reduced by filepath.Base (with '.', '..' and the separator rejected before the call)"
+	R.Rules["E7.path"] = "every path handed to a file-creating call in the attachment server is built only from constants, the terminal's BCD phone number, and announced names reduced by filepath.Base (with '.', '..' and the separator rejected before the call), and starts in the terminal's own directory ./<phone> (both ends of a rename; the directory argument of CreateTemp)"
 	R.Rules["E7.sinks"] = "the file-creating calls of the attachment package are found (anchor)"
 	passThrough := map[string]bool{"fmt.Sprintf": true, "path/filepath.Join": true, "path.Join": true, "strings.Join": true, "filepath.Join": true, "fmt.Sprint": true}
 	stopAt := map[string]bool{"path/filepath.Base": true, "path.Base": true, "filepath.Base": true}
@@ -268,6 +268,104 @@ func (c *Ctx) c19ByInterpretation() map[*ssa.Call]string {
 			}
 			return []string{"unsanitised component " + b.Desc}
 		}
+		// rooted: the path starts with "./<phone>" - the terminal's own directory under the working directory. The leaves
+		// of the path term are taken in order (format pieces and arguments of Sprintf, operands of +, elements of Join);
+		// after an optional leading "./" or "." the first leaf must be the BCD phone, followed by nothing or a separator.
+		type leaf struct {
+			k string // constant text, or ""
+			t absint.Term
+		}
+		var leaves func(t absint.Term, depth int) ([]leaf, bool)
+		leaves = func(t absint.Term, depth int) ([]leaf, bool) {
+			if ifc, isI := t.(*absint.Iface); isI {
+				t = ifc.Val
+			}
+			s, isS := t.(*absint.Slice)
+			if !isS || depth > 6 {
+				return nil, false
+			}
+			b := s.Base
+			switch {
+			case b.Str != nil:
+				return []leaf{{k: *b.Str}}, true
+			case strings.HasPrefix(b.Op, "sprintf:"):
+				format := strings.TrimPrefix(b.Op, "sprintf:")
+				var out []leaf
+				ai := 0
+				for len(format) > 0 {
+					i := strings.Index(format, "%")
+					if i < 0 {
+						out = append(out, leaf{k: format})
+						break
+					}
+					if i > 0 {
+						out = append(out, leaf{k: format[:i]})
+					}
+					if i+1 >= len(format) || (format[i+1] != 's' && format[i+1] != 'v') || ai >= len(b.Elems) {
+						return nil, false
+					}
+					sub, ok := leaves(b.Elems[ai], depth+1)
+					if !ok {
+						return nil, false
+					}
+					out = append(out, sub...)
+					ai++
+					format = format[i+2:]
+				}
+				return out, true
+			case b.Op == "concat" && b.From != nil && b.From2 != nil:
+				l1, ok1 := leaves(b.From, depth+1)
+				l2, ok2 := leaves(b.From2, depth+1)
+				return append(l1, l2...), ok1 && ok2
+			case b.Op == "call:path/filepath.Join" || b.Op == "call:path.Join":
+				var out []leaf
+				for i, e := range b.Elems {
+					sub, ok := leaves(e, depth+1)
+					if !ok {
+						return nil, false
+					}
+					if i > 0 {
+						out = append(out, leaf{k: "/"})
+					}
+					out = append(out, sub...)
+				}
+				return out, true
+			}
+			return []leaf{{t: s}}, true
+		}
+		isPhone := func(t absint.Term) bool {
+			s, isS := t.(*absint.Slice)
+			return isS && strings.HasSuffix(s.Base.Desc, "Header.TerminalPhoneNo") && s.Base.Op == "" && !s.Base.Fresh
+		}
+		rooted := func(st *absint.State, t absint.Term) []string {
+			ls, ok := leaves(t, 0)
+			if !ok || len(ls) == 0 {
+				return []string{"a path whose beginning the analysis cannot take apart (" + a.Render(t) + "): not known to lie in the terminal's directory"}
+			}
+			i := 0
+			// leading "./" or "." (+ separator)
+			if ls[0].t == nil && (ls[0].k == "./" || ls[0].k == ".") {
+				i = 1
+				if ls[0].k == "." && i < len(ls) && ls[i].t == nil && ls[i].k == "/" {
+					i++
+				}
+			}
+			if i >= len(ls) || ls[i].t == nil || !isPhone(ls[i].t) {
+				first := "the empty string"
+				if len(ls) > 0 && ls[0].t == nil && ls[0].k != "" {
+					first = fmt.Sprintf("the constant %q", ls[0].k)
+				} else if len(ls) > 0 && ls[0].t != nil {
+					first = a.Render(ls[0].t)
+				}
+				return []string{"the path does not start in the terminal's own directory ./<phone> (it starts with " + first + "; an empty directory argument of os.CreateTemp means the system temp directory)"}
+			}
+			if i+1 < len(ls) {
+				if nx := ls[i+1]; nx.t != nil || !strings.HasPrefix(nx.k, "/") {
+					return []string{"the phone number is followed by something other than a separator: the directory is not exactly ./<phone>"}
+				}
+			}
+			return nil
+		}
 		a.OnExternal = func(f2 *ssa.Function, site ssa.Instruction, name string, st *absint.State, eargs []absint.Term) {
 			idx, isSink := fileSinks[name]
 			call, isCall := site.(*ssa.Call)
@@ -275,6 +373,12 @@ func (c *Ctx) c19ByInterpretation() map[*ssa.Call]string {
 				return
 			}
 			bad := classify(st, eargs[idx], 0)
+			bad = append(bad, rooted(st, eargs[idx])...)
+			if name == "os.Rename" && len(eargs) > 0 {
+				// both ends of a rename lie in the terminal directory
+				bad = append(bad, classify(st, eargs[0], 0)...)
+				bad = append(bad, rooted(st, eargs[0])...)
+			}
 			c.mu.Lock()
 			v := acc[call]
 			if v == nil {
